@@ -167,7 +167,7 @@ fn gen_file(t: &mut Tape) -> (String, Vec<Container>) {
     let mut conts = Vec::new();
     let n = t.range(1, 4);
     let mut id = 0;
-    let mut members = |t: &mut Tape, text: &mut String, line: &mut i32, id: &mut usize, max: usize| -> Vec<u16> {
+    let members = |t: &mut Tape, text: &mut String, line: &mut i32, id: &mut usize, max: usize| -> Vec<u16> {
         let k = t.below(max + 1);
         let mut sizes = Vec::new();
         for _ in 0..k {
@@ -199,7 +199,7 @@ fn gen_file(t: &mut Tape) -> (String, Vec<Container>) {
             }
             _ => {
                 let l = line;
-                let kw = *t.pick(&["contract", "contract", "abstract contract", "library"]);
+                let kw = *t.pick(&["contract", "contract", "abstract contract", "library", "interface"]);
                 text.push_str(&format!("{kw} C{c} {{\n"));
                 line += 1;
                 let mut sizes = members(t, &mut text, &mut line, &mut id, 4);
@@ -353,6 +353,40 @@ pub fn run(env: &Env) -> i32 {
     // random longer sequences
     use proptest::prelude::*;
     value_stream(env, &mut st, "sequences-random", env.tier.n(100_000, 3_000_000), || proptest::collection::vec((1u16..=32).prop_map(|n| n * 8), 0..64), |seq: &Vec<u16>, s| seq_case("sequences-random", seq, s));
+    // long sequences (hundreds of members: totals beyond 65 535 bits)
+    value_stream(env, &mut st, "sequences-long", env.tier.n(3000, 60_000), || proptest::collection::vec(prop_oneof![3 => Just(256u16), 1 => (1u16..=32).prop_map(|n| n * 8)], 200..700), |seq: &Vec<u16>, s| {
+        s.count("long_sequences");
+        seq_case("sequences-long", seq, s)
+    });
+    // wide containers: n members of 256 bits framed by two halves (the halves can share a slot only when adjacent)
+    {
+        let ns: Vec<usize> = vec![1, 100, 254, 255, 256, 257, 298, 512, 1000];
+        enum_stream(env, &mut st, ns.len() as u64 * 2, |i, s| {
+            let n = ns[(i / 2) as usize];
+            let is_struct = i % 2 == 1;
+            let mut text = String::from("pragma solidity 0.8.17 ;\n");
+            text.push_str(if is_struct { "struct W {\n" } else { "contract W {\n" });
+            text.push_str("uint128 h0 ;\n");
+            for k in 0..n {
+                text.push_str(&format!("uint256 w{k} ;\n"));
+            }
+            text.push_str("uint128 h1 ;\n}\n");
+            let mut sizes = vec![128u16];
+            sizes.extend(std::iter::repeat(256u16).take(n));
+            sizes.push(128);
+            s.count("wide_containers");
+            // optimum is known: n + 1 slots (the two halves together); declared order uses n + 2
+            let rep = match catch(|| analyze_for_optimization(&text, 0, if is_struct { Optimization::PackStructVariables } else { Optimization::PackStorageVariables })) {
+                Ok(r) => r,
+                Err(site) => return vec![Violation::new("wide", format!("panic:{site}"), format!("packing detector panics on a container with {} members", n + 2), json!({"sizes_summary": format!("128, {n} x 256, 128")}))],
+            };
+            let mut out = seq_case("wide", &sizes, s);
+            if !rep.contains(&2) {
+                out.push(Violation::new("wide", format!("{}:not-reported-although-sorting-saves", if is_struct { "struct" } else { "contract" }), format!("a container with members 128, {n} x 256, 128 bits is not reported although sorting saves a slot"), json!({"text_summary": format!("128, {n} x 256, 128"), "struct": is_struct})));
+            }
+            out
+        });
+    }
     // (c) files with contracts and structs
     tape_stream(env, &mut st, "files", env.tier.n(60_000, 1_500_000), 300, |tape, s| {
         let mut t = Tape::new(tape);
